@@ -95,7 +95,10 @@ class P:
             self.opt("mut")
             return self.ty()
         if self.opt("["):
-            el = self.ty(); self.eat(";"); self.expr(); self.eat("]")
+            el = self.ty()
+            if self.opt("]"):
+                return ("slice", el)
+            self.eat(";"); self.expr(); self.eat("]")
             return ("array", el)
         k, v, _ = self.next()
         if k != "id":
@@ -120,6 +123,7 @@ class P:
             return ("ptuple", items)
         if self.opt("_"):
             return ("pwild",)
+        self.opt("&")                 # `&c` on a reference to a Copy value binds the value
         self.opt("mut")
         k, v, suf = self.next()
         if k == "num":
@@ -187,7 +191,10 @@ class P:
     def args(self):
         out = []
         while not self.at(")"):
-            out.append(self.expr()); self.opt(",")
+            a = self.expr()
+            if self.opt(".."):
+                a = ("rangefrom", a)
+            out.append(a); self.opt(",")
         self.eat(")")
         return out
 
@@ -204,6 +211,9 @@ class P:
             if len(items) == 1 and not trailing:
                 return ("paren", items[0])
             return ("tuple", items)
+        if self.at("||"):
+            self.next()
+            return ("closure", [], self.expr())
         if self.at("|"):
             self.next()
             ps = []
@@ -221,6 +231,9 @@ class P:
             return self.if_expr()
         if self.at("match"):
             return self.match_expr()
+        if self.at("unsafe") and self.peek(1)[1] == "{":
+            self.next()
+            return self.block()       # `unsafe { … }` is a block; what makes its contents defined is stated where they are translated
         if self.at("{"):
             return self.block()
         if self.at("return"):
@@ -268,7 +281,7 @@ class P:
             if self.opt("else"):
                 el = self.if_expr() if self.at("if") else self.block()
             if el is None:
-                raise SyntaxError("`if let` without else")
+                el = ("block", [], None)          # statement `if let` without `else`
             return ("match", scr, [([pt], th), ([("pwild",)], el)])
         c = self.expr(nostruct=True)
         th = self.block()
@@ -286,12 +299,51 @@ class P:
             pats = [self.pat()]
             while self.opt("|"):
                 pats.append(self.pat())
+            guard = self.expr(nostruct=True) if self.opt("if") else None
             self.eat("=>")
             body = self.expr()
             self.opt(",")
-            arms.append((pats, body))
+            arms.append((pats, body, guard))
         self.eat("}")
-        return ("match", scr, arms)
+        if any(g is not None for _, _, g in arms):
+            return ("match", scr, self.lower_guards(arms))
+        return ("match", scr, [(ps, b) for ps, b, _ in arms])
+
+    @staticmethod
+    def lower_guards(arms):
+        """match on an `Option` with guarded arms -> one arm per constructor whose body is the `if` chain of the guards, in source
+        order (a guard that fails falls through to the next arm that matches the same constructor)"""
+        flat = [(pt, b, g) for ps, b, g in arms for pt in ps]
+
+        def ctor_of(pt):
+            if pt[0] == "pctor" and pt[1][-1] in ("None", "Some"):
+                return pt[1][-1]
+            if pt[0] == "pwild":
+                return None
+            raise SyntaxError(f"guarded match: pattern {pt}")
+        binder = None
+        for pt, _, _ in flat:
+            if ctor_of(pt) == "Some" and pt[2] is not None and pt[2][0] == "pvar":
+                if binder is not None and binder != pt[2][1]:
+                    raise SyntaxError("guarded match: arms bind different names")
+                binder = pt[2][1]
+
+        def blk(b):
+            return b if b[0] == "block" else ("block", [], b)
+
+        def chain(cands):
+            if not cands:
+                raise SyntaxError("guarded match: not exhaustive")
+            (pt, b, g), rest = cands[0], cands[1:]
+            if g is None:
+                return b
+            return ("if", g, blk(b), blk(chain(rest)))
+        out = []
+        for c in ("None", "Some"):
+            cands = [(pt, b, g) for pt, b, g in flat if ctor_of(pt) in (c, None)]
+            pat = ("pctor", [c], None) if c == "None" else ("pctor", [c], ("pvar", binder) if binder else ("pwild",))
+            out.append(([pat], chain(cands)))
+        return out
 
     def block(self):
         self.eat("{")
@@ -308,6 +360,12 @@ class P:
                 self.next(); name = self.next()[1]; self.eat(":"); ty = self.ty(); self.eat("=")
                 e = self.expr(); self.eat(";")
                 stmts.append(("const", name, ty, e)); continue
+            if self.at("while") and self.peek(1)[1] == "let":
+                self.next(); self.next()
+                pt = self.pat(); self.eat("=")
+                scr = self.expr(nostruct=True)
+                b = self.block()
+                stmts.append(("whilelet", pt, scr, b)); continue
             if self.at("while"):
                 self.next()
                 c = self.expr(nostruct=True)
@@ -347,7 +405,15 @@ class P:
 def parse_fn(src, name, occ=0, key=None):
     """returns (params [(name, type)], ret type, body AST); `occ` selects among several functions of that name in the file"""
     src = re.sub(r"//[^\n]*", "", src)
-    src = re.sub(r"\bb?'(?:[^'\\\n]|\\.)'", "0", src)          # char / byte literals (keeps lifetimes)
+    def _byte(m):
+        c = m.group(1)
+        if c.startswith("\\"):
+            c = {"n": "\n", "t": "\t", "r": "\r", "0": "\0", "\\": "\\", "'": "'", '"': '"'}[c[1]]
+        return f"{ord(c)}_u8"
+    src = re.sub(r"\bb'([^'\\\n]|\\.)'", _byte, src)              # byte literals: their value
+    src = re.sub(r"'(?:[^'\\\n]|\\.)'", "0", src)                  # char literals (keeps lifetimes)
+    src = re.sub(r"<'[a-z_]+>", "", src)                             # lifetime parameters / arguments
+    src = re.sub(r"'[a-z_]+\b", "", src)
     src = re.sub(r'"(?:[^"\\]|\\.)*"', '0', src, flags=re.S)
     m = None
     seen = 0
@@ -474,6 +540,7 @@ def macro_expand(src, name, arm, inv, extra):
 
 # ----------------------------------------------------------------------------- back end
 MUT_PARAMS = {"u256_idiv_u128_special": ["xh", "xl"]}     # fn name -> names of its `&mut` parameters (their final values are returned, before the declared result)
+UNIT_RET = set()    # translated functions that return no value (only the final values of their `&mut` parameters)
 LOOP_FUEL = {}      # (fn name, loop index) -> fuel constant of the generated loop function
 
 
@@ -509,8 +576,8 @@ def lean_ty(t):
         return "Model.Dec"
     if t == "Ordering":
         return "Ordering"
-    if t == "str":
-        return "(List Nat)"
+    if t in ("str", "AsciiDecLit") or t == ("slice", "u8"):
+        return "(List Nat)"         # a string / byte slice / the parser's cursor (a struct around its remaining slice): its bytes
     if isinstance(t, tuple) and t[0] == "Result":
         if len(t) > 2 and t[2] == "ParseDecimalError":
             return f"(Except Model.ParseErr {lean_ty(t[1])})"
@@ -528,6 +595,10 @@ ERR_NAMES = {"MaxNFracDigitsExceeded": "maxNFracDigitsExceeded", "InternalOverfl
 DEC_METHODS = {"eq_zero": ("bool", "Model.eqZero", False), "eq_one": ("bool", "Model.eqOne", True),
                "is_negative": ("bool", "Model.isNegative", False), "is_positive": ("bool", "Model.isPositive", False),
                "fract": ("Decimal", "Model.fract", True)}
+# methods of the parser's cursor type `AsciiDecLit` -> name of their translation
+LIT_METHODS = {"is_empty": "lit_is_empty", "len": "lit_len", "skip_n": "lit_skip_n", "skip_1": "lit_skip_1", "first": "lit_first",
+               "first_eq": "lit_first_eq", "skip_leading_zeroes": "lit_skip_leading_zeroes", "read_u64": "lit_read_u64",
+               "read_u64_unchecked": "lit_read_u64_unchecked", "accum_coeff": "lit_accum_coeff", "accum_exp": "lit_accum_exp"}
 STRUCT_FIELDS = {"coeff": ("i128", "coeff"), "n_frac_digits": ("u8", "nfrac")}
 MODE_NAMES = {"Round05Up": ".r05up", "RoundCeiling": ".ceil", "RoundDown": ".down", "RoundFloor": ".floor",
               "RoundHalfDown": ".hdown", "RoundHalfEven": ".heven", "RoundHalfUp": ".hup", "RoundUp": ".up"}
@@ -599,6 +670,8 @@ class Emit:
                 return "RoundingMode"
             if e[1] == ["i128", "MAX"] or e[1] == ["i128", "MIN"]:
                 return "i128"
+            if len(e[1]) == 2 and e[1][0] in INT_TYPES and n in ("MAX", "MIN"):
+                return e[1][0]
             if len(e[1]) == 2 and e[1][0] in INT_TYPES and n == "BITS":
                 return "u32"
             if len(e[1]) == 2 and e[1][0] == "Self" and n in getattr(self, "self_consts", {}):
@@ -631,6 +704,17 @@ class Emit:
         if k == "method":
             rt = self.type_of(e[1], hint)
             m = e[2]
+            if rt == "AsciiDecLit" and m in LIT_METHODS:
+                r = self.sigs[LIT_METHODS[m]][1] if LIT_METHODS[m] in self.sigs else EXTERNAL[LIT_METHODS[m]][1]
+                mp = MUT_PARAMS.get(LIT_METHODS[m], [])
+                if mp and isinstance(r, tuple) and r[0] == "tuple":
+                    return r[1][-1] if len(r[1]) > len(mp) else "()"
+                return "()" if mp else r
+            if rt in (("slice", "u8"), "str"):
+                return {"is_empty": "bool", "len": "usize", "first": ("Option", "u8"), "get_unchecked": ("slice", "u8"),
+                        "as_ref": ("slice", "u8")}[m]
+            if m == "then":
+                return ("Option", self.type_of(e[3][0][2]))
             if m.startswith("checked_"):
                 return ("Option", rt)
             if m in ("unsigned_abs",):
@@ -685,6 +769,8 @@ class Emit:
             if n in MUT_PARAMS and (n in self.sigs or n in EXTERNAL):
                 rt = (self.sigs.get(n) or EXTERNAL[n])[1]
                 return rt[1][-1] if isinstance(rt, tuple) and rt[0] == "tuple" else rt
+            if e[1] == ["AsciiDecLit", "new"]:
+                return "AsciiDecLit"
             if n in self.sigs:
                 return self.sigs[n][1]
             if n in EXTERNAL:
@@ -695,8 +781,12 @@ class Emit:
                 return ARRAYS[e[1][1][-1]][0]
             at = self.type_of(e[1])
             return at[1] if isinstance(at, tuple) else "?"
+        if k == "struct" and [f for f, _ in e[1]] == ["bytes"]:
+            return "AsciiDecLit"
         if k == "struct":
             return "Decimal"
+        if k == "field" and e[2] == "bytes":
+            return ("slice", "u8")
         if k == "field":
             if isinstance(e[2], str) and e[2] in STRUCT_FIELDS:
                 return STRUCT_FIELDS[e[2]][0]
@@ -759,6 +849,10 @@ class Emit:
                 return [], "I128_MAX"
             if e[1] == ["i128", "MIN"]:
                 return [], "I128_MIN"
+            if len(e[1]) == 2 and e[1][0] in INT_TYPES and n in ("MAX", "MIN"):
+                t_ = e[1][0]
+                lo, hi = (-(1 << (bits(t_) - 1)), (1 << (bits(t_) - 1)) - 1) if signed(t_) else (0, (1 << bits(t_)) - 1)
+                return [], str(hi if n == "MAX" else f"({lo})")
             if n == "None":
                 return [], "none"
             if len(e[1]) == 1 and n in ("true", "false"):
@@ -818,12 +912,16 @@ class Emit:
             ls2, i = self.ex(e[2], "usize")
             v = self.fresh()
             return ls1 + ls2 + [f"let {v} ← Rt.index ({a}) ({i})"], v
+        if k == "struct" and [f for f, _ in e[1]] == ["bytes"]:
+            return self.ex(e[1][0][1], ("slice", "u8"))        # `AsciiDecLit { bytes }`: carried as its only field
         if k == "struct":
             ls, vals = [], {}
             for fn_, fe in e[1]:
                 l, x = self.ex(fe, STRUCT_FIELDS[fn_][0])
                 ls += l; vals[fn_] = x
             return ls, f"(⟨{vals['coeff']}, {vals['n_frac_digits']}⟩ : Model.Dec)"
+        if k == "field" and e[2] == "bytes":
+            return self.ex(e[1])
         if k == "field":
             ls, x = self.ex(e[1])
             if isinstance(e[2], str) and e[2] in STRUCT_FIELDS:
@@ -989,7 +1087,31 @@ class Emit:
             if lb:
                 raise Unsupported("effect inside a closure")
             return lr, f"(Option.map (fun {ps[0]} => {xb}) ({xr}))"
+        if m == "then" and len(args) == 1 and args[0][0] == "closure" and not args[0][1]:
+            # bool::then with a pure closure
+            lr, xr = self.ex(recv, "bool")
+            lb, xb = self.ex(args[0][2], hint[1] if isinstance(hint, tuple) else None)
+            if lb:
+                raise Unsupported("effect inside a closure")
+            return lr, f"(if {xr} = true then some ({xb}) else none)"
         t = self.type_of(recv, hint)
+        if t == "AsciiDecLit" and m in LIT_METHODS:
+            return self.call(("call", [LIT_METHODS[m]], [recv] + list(args)), hint)
+        if t in (("slice", "u8"), "str"):
+            lr, xr = self.ex(recv, t)
+            if m == "as_ref" and not args:
+                return lr, xr
+            if m == "is_empty" and not args:
+                return lr, f"(List.isEmpty ({xr}))"
+            if m == "len" and not args:
+                return lr, f"(List.length ({xr}))"
+            if m == "first" and not args:
+                return lr, f"(List.head? ({xr}))"
+            if m == "get_unchecked" and len(args) == 1 and args[0][0] == "rangefrom":
+                # undefined behaviour when the start exceeds the length; every call site is dominated by a length test
+                la, xa = self.ex(args[0][1], "usize")
+                return lr + la, f"(List.drop ({xa}) ({xr}))"
+            raise Unsupported(f"slice method {m}")
         if t == "Decimal" and m in ("coefficient", "n_frac_digits") and not args:
             lr, xr = self.ex(recv, "Decimal")
             return lr, f"({xr}).{'coeff' if m == 'coefficient' else 'nfrac'}"
@@ -1133,6 +1255,8 @@ class Emit:
             if a[0] == "path" and len(a[1]) == 1 and a[1][0] in self.env:
                 return [], f"(Except.error {a[1][0]})"
             raise Unsupported("Err of a computed value")
+        if path == ["AsciiDecLit", "new"]:
+            path, n = ["lit_new"], "lit_new"
         if n not in self.sigs and n not in EXTERNAL:
             raise Unsupported(f"call {n}")
         ptys = (self.sigs.get(n) or EXTERNAL[n])[0]
@@ -1154,7 +1278,7 @@ class Emit:
                     outs.append(a2[1][0])
             head = f"K.{n} prof" if n in self.sigs else EXTERNAL[n][2]
             rt = (self.sigs.get(n) or EXTERNAL[n])[1]
-            has_val = not (isinstance(rt, tuple) and rt[0] == "tuple" and len(rt[1]) == len(outs)) and rt != "()"
+            has_val = not (isinstance(rt, tuple) and rt[0] == "tuple" and len(rt[1]) == len(outs)) and rt != "()" and n not in UNIT_RET
             pat = "(" + ", ".join(outs + ([v] if has_val else [])) + ")"
             return ls + [f"let {pat} ← {head} " + " ".join(xs)], (v if has_val else "()")
         if n in self.sigs:
@@ -1195,6 +1319,42 @@ class Emit:
                 return self.stmts_term(rest, tail, ind, k)
             self.local_consts[name] = (ty, self.const_eval(e), None)
             return self.stmts_term(rest, tail, ind, k)
+        if kind == "let" and s[3][0] == "match" and self.single_live_arm(s[3]) is not None:
+            # `let p = match x { A => { …; return r }, B => e };` — only one arm produces a value: the `let` and what follows it
+            # continue inside that arm
+            _, p, ty, e = s
+            live = self.single_live_arm(e)
+            st = self.type_of(e[1])
+            ls, x = self.ex(e[1], st)
+            out = "".join(f"{pad}{l}\n" for l in ls) + f"{pad}match {x} with\n"
+            for i, (pats, body) in enumerate(e[2]):
+                for pt in pats:
+                    saved = dict(self.env)
+                    self.bind_pat(pt, st)
+                    out += f"{pad}| {self.pat_lean(pt, st)} =>\n"
+                    if i == live:
+                        out += self.stmts_term([("let", p, ty, body)] + rest, tail, ind + 2, k)
+                    else:
+                        b = body if body[0] == "block" else ("block", [], body)
+                        out += self.stmts_term(list(b[1]), b[2], ind + 2, None)
+                    self.env = saved
+            return out
+        if kind == "let" and s[3][0] == "if" and s[3][3] is not None and self.assigned_vars(s[3]) and not self.has_return_deep(s[3]):
+            # `let p = if c { …effects on variables…; v1 } else { …; v2 };` — a join point carrying the value and the variables
+            _, p, ty, e = s
+            vars_ = self.assigned_vars(e)
+            t = ty or self.branch_type(e)
+            if t is None:
+                raise Unsupported("type of a value-`if` with effects")
+            names = ", ".join(vars_)
+
+            def cont(i, val):
+                return "  " * i + f"pure (({val}, {names}))\n"
+            cont.takes_value, cont.hint = True, t
+            body = self.tail_term(e, ind + 2, cont)
+            self.bind_pat(p, t)
+            out = f"{pad}let ({self.pat_lean(p, t)}, {names}) ← (do\n{body}{pad}  : Outcome _)\n"
+            return out + self.stmts_term(rest, tail, ind, k)
         if kind == "let":
             _, p, ty, e = s
             if ty is None and e[0] == "lit" and not e[2] and isinstance(self.ret, str) and self.ret in INT_TYPES:
@@ -1263,8 +1423,12 @@ class Emit:
                         f"{pad}| Sum.inr {tup} =>\n" + rest_txt)
             out = f"{pad}let {tup} ← {call}\n"
             return out + self.stmts_term(rest, tail, ind, k)
+        if kind == "whilelet":
+            return self.whilelet_stmt(s, rest, tail, ind, k)
         if kind == "assign":
             _, op, lhs, rhs = s
+            if lhs[0] == "field" and lhs[2] == "bytes" and lhs[1][0] == "path":
+                lhs = lhs[1]                  # the cursor is carried as its only field
             if lhs[0] != "path" or len(lhs[1]) != 1:
                 raise Unsupported("assignment target")
             name = lhs[1][0]
@@ -1294,9 +1458,24 @@ class Emit:
                 pre = "".join(f"{pad}{l}\n" for l in lc)
                 els = self.stmts_term(rest, tail, ind + 1, k)
                 return pre + f"{pad}if {xc} then\n{pad}  pure (@@FIN@@)\n{pad}else\n{els}"
+            if e[0] == "if" and e[3] is not None and getattr(self, "in_loop", False) and self.is_break(e[3]):
+                # `if c { … } else { break; }` inside a loop: the loop goes on in the first branch only
+                lc, xc = self.cond(e[1])
+                pre = "".join(f"{pad}{l}\n" for l in lc)
+                thn = self.stmts_term(self.as_stmts(e[2]) + rest, tail, ind + 1, k)
+                return pre + f"{pad}if {xc} then\n{thn}{pad}else\n{pad}  pure (@@FIN@@)\n"
             if e[0] == "if":
                 # statement `if` (no value): may assign variables or return early
                 return self.if_stmt(e, rest, tail, ind, k)
+            if e[0] == "block":
+                if any(st[0] == "let" for st in e[1]):
+                    raise Unsupported("`let` inside a nested block statement")
+                return self.stmts_term(self.as_stmts(e) + rest, tail, ind, k)
+            if e[0] == "path" and len(e[1]) == 1 and e[1][0] in self.env:
+                return self.stmts_term(rest, tail, ind, k)          # a bare variable as a statement (`self` at the end of a `&mut Self` method)
+            if e[0] in ("method", "call") and not (e[0] == "call" and e[1][-1] in MUT_PARAMS and e[1][-1] not in LIT_METHODS.values()):
+                ls, _x = self.ex(e, None)                             # evaluated for its effects
+                return "".join(f"{pad}{l}\n" for l in ls) + self.stmts_term(rest, tail, ind, k)
             if e[0] == "macro" and e[1] == "panic":
                 return f"{pad}Outcome.panic {self.panic_kind(e[2])}\n"      # diverges: nothing after it runs
             if e[0] == "macro":
@@ -1317,6 +1496,26 @@ class Emit:
                 head = f"K.{n} prof" if n in self.sigs else EXTERNAL[n][2]
                 bind = "←" if (n in self.sigs or EXTERNAL[n][3]) else ":="
                 out = "".join(f"{pad}{l}\n" for l in ls) + f"{pad}let {tup} {bind} {head} " + " ".join(xs) + "\n"
+                return out + self.stmts_term(rest, tail, ind, k)
+            if e[0] == "match" and (rest or tail is not None) and not self.has_return_deep(e) and self.assigned_vars(e) \
+                    and sum(1 for _, b in e[2] if not self.ends_diverging(b)) >= 2:
+                # several arms reach the statements after the `match`: a join point carrying the variables they assign
+                _, scr, arms = e
+                vars_ = self.assigned_vars(e)
+                tup = "(" + ", ".join(vars_) + ")" if len(vars_) > 1 else vars_[0]
+
+                def cont(i):
+                    return "  " * i + f"pure ({tup})\n"
+                st = self.type_of(scr)
+                ls, x = self.ex(scr, st)
+                out = "".join(f"{pad}{l}\n" for l in ls) + f"{pad}let {tup} ← (match {x} with\n"
+                for pats, body in arms:
+                    for pt in pats:
+                        saved = dict(self.env)
+                        self.bind_pat(pt, st)
+                        out += f"{pad}  | {self.pat_lean(pt, st)} => (do\n" + self.stmts_term(self.as_stmts(body), None, ind + 3, cont) + f"{pad}    )\n"
+                        self.env = saved
+                out += f"{pad}  : Outcome _)\n"
                 return out + self.stmts_term(rest, tail, ind, k)
             if e[0] == "match":
                 # statement `match`: arms may return early; the rest of the function follows every arm
@@ -1346,9 +1545,30 @@ class Emit:
             if n not in out:
                 out.append(n)
 
+        def walk_calls(x):
+            """receivers / arguments passed by `&mut` to translated functions anywhere inside the expression"""
+            if isinstance(x, tuple) and x and x[0] == "method" and x[2] in LIT_METHODS and "self" in MUT_PARAMS.get(LIT_METHODS[x[2]], []) \
+                    and x[1][0] == "path" and len(x[1][1]) == 1:
+                n_ = LIT_METHODS[x[2]]
+                add(x[1][1][0])
+                if n_ in self.sigs:
+                    for a, (pn, _) in zip(x[3], self.sigs[n_][0][1:]):
+                        if pn in MUT_PARAMS.get(n_, []) and a[0] == "path":
+                            add(a[1][0])
+            if isinstance(x, tuple) and x and x[0] == "call" and x[1][-1] in MUT_PARAMS and x[1][-1] in self.sigs:
+                for a, (pn, _) in zip(x[2], self.sigs[x[1][-1]][0]):
+                    if pn in MUT_PARAMS[x[1][-1]] and a[0] == "path":
+                        add(a[1][0])
+            if isinstance(x, (tuple, list)):
+                for y in x:
+                    if isinstance(y, (tuple, list)):
+                        walk_calls(y)
+
         def walk_expr(e):
             if not isinstance(e, tuple) or not e:
                 return
+            if e[0] in ("method", "call"):
+                walk_calls(e)
             if e[0] == "block":
                 walk_block(e)
             elif e[0] == "if":
@@ -1361,12 +1581,19 @@ class Emit:
 
         def walk_block(b):
             for st in b[1]:
-                if st[0] == "assign" and st[2][0] == "path":
+                if st[0] == "assign" and st[2][0] == "field" and st[2][2] == "bytes" and st[2][1][0] == "path":
+                    add(st[2][1][1][0])
+                elif st[0] == "assign" and st[2][0] == "path":
+                    walk_calls(st[3])
                     add(st[2][1][0])
+                elif st[0] == "let":
+                    walk_calls(st[3])
                 elif st[0] == "expr":
                     walk_expr(st[1])
                 elif st[0] == "while":
                     walk_block(st[2])
+                elif st[0] == "whilelet":
+                    walk_block(st[3])
             if b[2] is not None:
                 walk_expr(b[2])
         if blk[0] == "block":
@@ -1390,6 +1617,70 @@ class Emit:
         for a in asts:
             walk(a)
         return [n for n in self.env if n in seen]
+
+    @staticmethod
+    def is_break(b):
+        return b[0] == "block" and ((b[1] == [("expr", ("path", ["break"]))] and b[2] is None) or (not b[1] and b[2] == ("path", ["break"])))
+
+    @staticmethod
+    def ends_diverging(b):
+        """the block (or expression) ends in `return` / `panic!`"""
+        if b[0] == "return" or (b[0] == "macro" and b[1] == "panic"):
+            return True
+        if b[0] != "block":
+            return False
+        last = b[2] if b[2] is not None else (b[1][-1][1] if b[1] and b[1][-1][0] == "expr" else None)
+        return last is not None and (last[0] == "return" or (last[0] == "macro" and last[1] == "panic"))
+
+    def single_live_arm(self, m):
+        """index of the only arm of a `match` that does not end in `return`/`panic!`, when some other arm does; else None"""
+        live = [i for i, (_, b) in enumerate(m[2]) if not self.ends_diverging(b)]
+        return live[0] if len(live) == 1 and len(m[2]) > 1 else None
+
+    def whilelet_stmt(self, s, rest, tail, ind, k):
+        """`while let P = e { body }`: fuel-bounded recursion; the loop ends when the pattern does not match"""
+        pad = "  " * ind
+        _, pt, scr, body = s
+        state = [v for v in self.assigned_vars(body) if v in self.env]
+        if not state:
+            raise Unsupported("while-let loop without loop-carried variables")
+        fv = [v for v in self.free_vars(scr, body) if v not in state]
+        self.loop_count = getattr(self, "loop_count", 0) + 1
+        lname = f"{self.fname}_loop{self.loop_count}"
+        fuel = LOOP_FUEL.get((self.fname, self.loop_count), 64)
+        st_ty = ("tuple", [self.env[v] for v in state]) if len(state) > 1 else self.env[state[0]]
+        tup = "(" + ", ".join(state) + ")" if len(state) > 1 else state[0]
+        saved_tm, saved_env = self.needs_tm, dict(self.env)
+        self.needs_tm = False
+        if getattr(self, "in_loop", False):
+            raise Unsupported("nested loops")
+        self.in_loop = True
+        self.loop_returns = False
+        self.cur_ind = 2
+        sty = self.type_of(scr)
+        lc, xc = self.ex(scr, sty)
+        args = " ".join(fv)
+
+        def rec(i):
+            return "  " * i + f"{lname} prof {args + ' ' if args else ''}fuel {' '.join(state)}\n"
+        self.bind_pat(pt, sty)
+        btxt = self.stmts_term(self.as_stmts(body), None, 4, rec)
+        if self.needs_tm or self.loop_returns:
+            raise Unsupported("while-let body consults the rounding mode or returns")
+        self.needs_tm, self.env = saved_tm, saved_env
+        self.in_loop = False
+        ps = " ".join(f"({v} : {lean_ty(self.env[v])})" for v in fv)
+        sig = " → ".join(["Nat"] + [lean_ty(self.env[v]) for v in state] + [f"Outcome {lean_ty(st_ty)}"])
+        aux = [f"/-- loop {self.loop_count} of `fn {self.fname}` (`while let`): fuel-bounded recursion, state = ({', '.join(state)}) -/",
+               f"def {lname} (prof : Profile) {ps} : {sig}",
+               "  | 0, " + ", ".join("_" for _ in state) + " => Outcome.panic .other",
+               "  | fuel + 1, " + ", ".join(state) + " => do"]
+        aux += ["    " + l for l in lc]
+        aux += [f"    match {xc} with", f"    | {self.pat_lean(pt, sty)} =>", btxt.rstrip("\n").replace("@@FIN@@", tup),
+                "    | _ =>", f"      pure ({tup})", ""]
+        self.aux = getattr(self, "aux", []) + ["\n".join(aux)]
+        call = f"{lname} prof {args + ' ' if args else ''}{fuel} {' '.join(state)}"
+        return f"{pad}let {tup} ← {call}\n" + self.stmts_term(rest, tail, ind, k)
 
     @staticmethod
     def as_stmts(b):
@@ -1427,6 +1718,11 @@ class Emit:
             # `if c { …; return x; }` followed by the rest
             thn = self.stmts_term(list(th[1]), th[2], ind + 1, None)
             els = self.stmts_term(rest, tail, ind + 1, k)
+            return pre + f"{pad}if {xc} then\n{thn}{pad}else\n{els}"
+        if el is not None and el[0] == "block" and self.ends_diverging(el) and not self.ends_diverging(th):
+            # `if c { … } else { …; return x }`: what follows the `if` continues the first branch only
+            thn = self.stmts_term(self.as_stmts(th) + rest, tail, ind + 1, k)
+            els = self.stmts_term(list(el[1]), el[2], ind + 1, None)
             return pre + f"{pad}if {xc} then\n{thn}{pad}else\n{els}"
         vars_ = self.assigned_vars(th) + ([v for v in self.assigned_vars(el) if v not in self.assigned_vars(th)] if el else [])
         if not vars_:
@@ -1495,6 +1791,9 @@ class Emit:
             return f"{pad}Outcome.panic {self.panic_kind(e[2])}\n"
         if e[0] == "macro" and e[1] == "unreachable":
             return f"{pad}Outcome.panic .unwrap\n"
+        if k is not None and getattr(k, "takes_value", False):
+            ls, x = self.ex(e, k.hint)
+            return "".join(f"{pad}{l}\n" for l in ls) + k(ind, x)
         ls, x = self.ex(e, self.decl_ret if hasattr(self, "decl_ret") and not getattr(self, "in_loop", False) else self.ret)
         out = "".join(f"{pad}{l}\n" for l in ls)
         if k is not None:
@@ -1566,7 +1865,11 @@ class Emit:
             return self.const_eval(e[1])
         if k == "bin":
             a, b = self.const_eval(e[2]), self.const_eval(e[3])
+            if e[1] == "/" and a >= 0 and b > 0:
+                return a // b
             return {"+": a + b, "-": a - b, "*": a * b, "<<": a << b}[e[1]]
+        if k == "path" and len(e[1]) == 2 and e[1][0] in INT_TYPES and e[1][1] == "MAX":
+            return ((1 << (bits(e[1][0]) - 1)) - 1) if signed(e[1][0]) else ((1 << bits(e[1][0])) - 1)
         if k == "path":
             n = e[1][-1]
             c = self.local_consts.get(n) or self.consts.get(n)
@@ -1576,15 +1879,17 @@ class Emit:
 
 
 # ----------------------------------------------------------------------------- driver
-GROUP_IMPORTS = {"KMagn": ["Fpdec.Gen.KLog", "Fpdec.Gen.Consts", "Fpdec.Model.Decimal"], "KRatio": ["Fpdec.Gen.KPow", "Fpdec.Model.Decimal"], "KPow": ["Fpdec.Gen.Consts"], "KDivRounded": ["Fpdec.Gen.KRound", "Fpdec.Gen.KPow", "Fpdec.Model.Core"],
+GROUP_IMPORTS = {"KParse": ["Fpdec.Gen.KSwar", "Fpdec.Gen.Consts", "Fpdec.Model.Parser"], "KMagn": ["Fpdec.Gen.KLog", "Fpdec.Gen.Consts", "Fpdec.Model.Decimal"], "KRatio": ["Fpdec.Gen.KPow", "Fpdec.Model.Decimal"], "KPow": ["Fpdec.Gen.Consts"], "KDivRounded": ["Fpdec.Gen.KRound", "Fpdec.Gen.KPow", "Fpdec.Model.Core"],
                  "KDecDiv": ["Fpdec.Gen.KDivRounded"], "KDecMul": ["Fpdec.Gen.KDivRounded", "Fpdec.Model.Decimal"], "KNorm": [], "KFromStr": ["Fpdec.Gen.KPow", "Fpdec.Gen.Consts", "Fpdec.Model.Parser"], "KIntoFloat": ["Fpdec.Gen.Consts", "Fpdec.Model.Decimal"], "KIntOps": ["Fpdec.Gen.KDecDiv", "Fpdec.Gen.KNorm", "Fpdec.Gen.Consts", "Fpdec.Model.Decimal"], "KForward": ["Fpdec.Gen.KAddSub", "Fpdec.Gen.KDecOps"], "KIntConv": ["Fpdec.Gen.KPow", "Fpdec.Model.Decimal"], "KCmp": ["Fpdec.Gen.KPow", "Fpdec.Model.Decimal"], "KAddSub": ["Fpdec.Gen.KPow", "Fpdec.Model.Decimal"], "KDecUnops": ["Fpdec.Gen.KUnops", "Fpdec.Gen.KPow", "Fpdec.Model.Decimal"], "KDecOps": ["Fpdec.Gen.KDecDiv", "Fpdec.Gen.KDecMul", "Fpdec.Gen.KNorm", "Fpdec.Gen.Consts", "Fpdec.Model.Decimal"],
                  "KDecRound": ["Fpdec.Gen.KDivRounded", "Fpdec.Model.Decimal"],
                  "KFloat": ["Fpdec.Gen.KNorm", "Fpdec.Gen.Consts", "Fpdec.Model.Core", "Fpdec.Model.Decimal"], "KRem": ["Fpdec.Gen.KPow"], "KDecRem": ["Fpdec.Gen.KRem", "Fpdec.Model.Decimal"],
                  "KWideDiv": ["Fpdec.Gen.KWide", "Fpdec.Gen.KPow", "Fpdec.Gen.Consts", "Fpdec.Model.Core"]}
 # translated functions that only the listed groups call in their translated form; elsewhere the call goes to the hand-written model
 # function of the EXTERNAL table (its tie theorem shows the two agree on the i128 range)
-CALL_SCOPE = {"i128_magnitude": {"KMagn"}}
-LOOP_FUEL.update({("gcd_special", 1): 600, ("normalize", 1): 256, ("approx_rational", 1): 32, ("rem", 1): 256,
+CALL_SCOPE = {"i128_magnitude": {"KMagn"}, "str_to_dec": {"KParse"}}
+LOOP_FUEL.update({("lit_skip_leading_zeroes", 1): 2 ** 64, ("lit_accum_coeff", 1): 2 ** 64, ("lit_accum_coeff", 2): 2 ** 64,
+                  ("lit_accum_exp", 1): 2 ** 64,
+                  ("gcd_special", 1): 600, ("normalize", 1): 256, ("approx_rational", 1): 32, ("rem", 1): 256,
                   ("u256_idiv_u128_special_k", 1): 340282366920938463463374607431768211457,
                   ("u256_idiv_u128_special_k", 2): 340282366920938463463374607431768211457})
 KERNELS = [
@@ -1709,6 +2014,18 @@ KERNELS = [
       "self_consts": {"FRACTION_BITS": ("u32", 23), "EXP_BIAS": ("i32", 127), "BITS": ("u32", 32), "__from_bits_width__": ("u32", 32)}}),
     ("KIntoFloat", "src/into_float.rs", "from_decimal", "u64",
      {"as": "f64_from_decimal", "ret": "u64", "self_consts": {"FRACTION_BITS": ("u32", 52), "EXP_BIAS": ("i32", 1023), "BITS": ("u32", 64)}}),
+    ("KParse", "fpdec-core/src/parser.rs", "new", "AsciiDecLit", {"as": "lit_new"}),
+    ("KParse", "fpdec-core/src/parser.rs", "is_empty", "AsciiDecLit", {"as": "lit_is_empty"}),
+    ("KParse", "fpdec-core/src/parser.rs", "len", "AsciiDecLit", {"as": "lit_len"}),
+    ("KParse", "fpdec-core/src/parser.rs", "skip_n", "AsciiDecLit", {"as": "lit_skip_n", "ret": "()"}),
+    ("KParse", "fpdec-core/src/parser.rs", "skip_1", "AsciiDecLit", {"as": "lit_skip_1", "ret": "()"}),
+    ("KParse", "fpdec-core/src/parser.rs", "first", "AsciiDecLit", {"as": "lit_first"}),
+    ("KParse", "fpdec-core/src/parser.rs", "first_eq", "AsciiDecLit", {"as": "lit_first_eq"}),
+    ("KParse", "fpdec-core/src/parser.rs", "skip_leading_zeroes", "AsciiDecLit", {"as": "lit_skip_leading_zeroes", "ret": "()"}),
+    ("KParse", "fpdec-core/src/parser.rs", "read_u64", "AsciiDecLit", {"as": "lit_read_u64"}),
+    ("KParse", "fpdec-core/src/parser.rs", "accum_coeff", "AsciiDecLit", {"as": "lit_accum_coeff"}),
+    ("KParse", "fpdec-core/src/parser.rs", "accum_exp", "AsciiDecLit", {"as": "lit_accum_exp"}),
+    ("KParse", "fpdec-core/src/parser.rs", "str_to_dec", None, {"err": "ParseDecimalError"}),
     ("KFromStr", "src/from_str.rs", "from_str", "Decimal", {"as": "decimal_from_str", "err": "ParseDecimalError",
                                                              "ret": ("Result", "Decimal", "ParseDecimalError")}),
     ("KFromStr", "fpdec-macros/src/lib.rs", "Dec", None, {"as": "dec_fold", "err": "ParseDecimalError", "rewrite": [
@@ -1758,6 +2075,9 @@ EXTERNAL = {
     "i256_div_mod_floor": ([("x1", "i128"), ("x2", "i128"), ("y", "i128")], ("Option", ("tuple", ["i128", "i128"])),
                            "Model.i256DivModFloor prof", True),
     "i128_magnitude": ([("i", "i128")], "u8", "Model.i128Magnitude", False),
+    # `u64::from_le(ptr::read_unaligned(bytes.as_ptr() as *const u64))`: the little-endian value of the first eight bytes (its
+    # debug assertion `len >= 8` and its pointer read are dominated by the length test in `read_u64`, the only caller)
+    "lit_read_u64_unchecked": ([("self", "AsciiDecLit")], "u64", "Rt.readU64LE", False),
     "str_to_dec": ([("lit", "str")], ("Result", ("tuple", ["i128", "isize"]), "ParseDecimalError"), "Model.strToDec prof", True),
     "u256_idiv_u128_special": ([("xh", "u128"), ("xl", "u128"), ("y", "u128")], ("tuple", ["u128", "u128", "u128"]),
                                "Model.u256IdivU128Special prof", True),
@@ -1834,6 +2154,8 @@ def translate(repo):
             ret = opts["ret"] if "ret" in opts else sub(ret, selfty)
             parsed[name] = (params, ret, body, selfty)
             sigs[name] = (params, ret, None)
+            if ret == "()":
+                UNIT_RET.add(name)
         except Exception as e:                      # noqa: BLE001 — any failure becomes a stub whose tie cannot be proved
             failed[name] = f"{type(e).__name__}: {e}"
     groups = {}
@@ -1863,6 +2185,8 @@ def translate(repo):
                 em = Emit(name, params, eff_ret, vis, {**GLOBAL_CONSTS["*"], **GLOBAL_CONSTS.get(f, {})}, selfty)
                 em.self_consts = opts.get("self_consts", {})
                 em.decl_ret = ret
+                if kfin is not None and body[2] is not None and body[2][0] in ("path", "method", "call"):
+                    body = ("block", Emit.as_stmts(body), None)      # no value: the tail expression is evaluated for its effects
                 term = em.block_term(body, 1, kfin)
                 ret = eff_ret
                 sigs[name] = (params, eff_ret, None)
